@@ -116,6 +116,15 @@ def gen(ctx, rng):
         cases.append(dict(axis=axis, n=n, begin=pick(), end=pick(), method=meth, op=str(rng.choice(["sum", "mean", "full"])),
                           dim=str(rng.choice(["time", "band"])), pix=pix, first=bool(rng.random() < 0.5), exhaustive=False,
                           dtype=str(rng.choice(["float64", "float32", "float32"]))))
+    # the label value 0 (falsy in Python) as begin / end: on an axis that starts at 0, and off the axis (must raise like any other
+    # label that is not there); non-time dimension, so that the label really is the integer 0
+    for L in range(2, 7):
+        for n in (1, 2, L):
+            for axis in ([10 * i for i in range(L)], [10 * (i + 1) for i in range(L)], [i for i in range(L)]):
+                for b, e in ((0, None), (None, 0), (0, axis[-1]), (axis[-1], 0)):
+                    pix = [int(v) for v in rng.integers(-50, 50, size=L)]
+                    cases.append(dict(axis=axis, n=n, begin=b, end=e, method=[None, "ffill"][(L + n) % 2], op=["sum", "mean", "full"][(L + n) % 3],
+                                      dim="band", pix=pix, first=bool(L % 2), exhaustive=False, dtype="float64"))
     # integer cubes whose cells fit their dtype while the window sums do not (int16 indices around 8000, int8, int32 near 1e9): a sum is
     # the sum of the window's cells, not that sum wrapped into the input dtype
     for k in range(90 if ctx.thorough else 36):
